@@ -16,6 +16,11 @@ def harnesses(ctx):
                 "arbitrary earlier history (any mode, any earlier request, a mode change before and after it), then {request r; mode m} in either order or alone; all 3 modes x all 1024 requests each",
                 kernel="C10-b the loaded field set after any mode/request history contains what a fresh tokenizer with the same mode and request loads, plus at most stale split fields",
                 assumptions=["a fresh tokenizer = create(mode); set_mode(mode); set_subset(request) (what the Python/CLI front ends do)"], timeout_s=900, mem_gb=12),
+        Harness("c10_empty_text_after_history", "analysis__stateful_tokenizer", ["StatefulTokenizer::reset", "StatefulTokenizer::do_tokenize", "the Vec swap of StatefulTokenizer::swap_result",
+                                                                                 "InputBuffer::start_build", "InputBuffer::build"],
+                "tokenizer whose recycled result vector holds 0-2 arbitrary stale morphemes, caller's list holding 0-2 arbitrary stale morphemes, any mode; then reset + empty text + do_tokenize + the result-vector swap of swap_result",
+                kernel="C10-d after any history the empty text yields no morphemes (do_tokenize returns before the path is rebuilt: only reset can have emptied the recycled vector)",
+                assumptions=["no input-text plugins", "default character classes"], fs_array=True, timeout_s=900, mem_gb=12),
         Harness("c10_buffer_reuse", "input_text__buffer__mod", ["InputBuffer::reset", "InputBuffer::start_build", "InputBuffer::refresh_chars", "InputBuffer::build",
                                                                 "InputBuffer::current_chars", "InputBuffer::to_orig_byte_idx", "InputBuffer::to_orig_char_idx"],
                 "every table of the buffer holds arbitrary junk of an earlier, longer analysis (any state); next text \"a\u3042\"; compared field by field with a fresh buffer",
@@ -40,6 +45,6 @@ MANIFEST = dict(
     text=("Histories are covered by inductive steps over an arbitrary earlier state: (a) whatever a lattice held before (any nodes, costs, back-pointers, end-of-sentence link), reset(n) for a shorter, "
           "equal or longer sentence leaves no stale data in any row a later call can read; (b) after any earlier mode/request history followed by a request and a mode change in either order, the "
           "field set a reused tokenizer loads contains the one a fresh tokenizer with the same mode and request loads and exceeds it only by stale split fields - and always includes the "
-          "key length the A/B splitting code reads. Recycling of the OOV scratch vector, result lists and the Python scope guard are outside."),
+          "key length the A/B splitting code reads. (c) an input buffer whose tables hold arbitrary junk behaves like a fresh one after reset; (d) whatever stale morphemes the recycled result vector and the caller's list hold, the empty text yields no morphemes. Recycling of the OOV scratch vector, non-empty texts through a reused result vector and the Python scope guard are outside."),
     note="Equality of the following analysis is by argument (later operations read only the rows checked). Trusted: Kani/CBMC/cadical.",
 )
